@@ -281,7 +281,8 @@ class Sched:
         if event == "line":
             # reduced parking: a thread that has logged no shared action since it last parked need not park
             # again (the lines in between touched thread-local state only); `park_all` parks on every line
-            if self.park_all or th.acted:
+            # Connection.close() is atomic here (no parking inside it; the model's step x0 is atomic too)
+            if (self.park_all or th.acted) and not th.in_close:
                 th.acted = 0
                 th.state = "line"
                 th.at = (frame.f_code.co_name, frame.f_lineno)
@@ -926,7 +927,8 @@ class Run:
                     s.grant(s.threads[current])
             self.blocked_at_end = [(th.tid, th.state, th.kind, th.deadline) for th in s.threads.values()
                                    if th.state != "done"]
-            self.thread_errors = {th.tid: repr(th.exc) for th in s.threads.values() if th.exc is not None}
+            self.thread_errors = {th.tid: repr(th.exc) for th in s.threads.values() if th.exc is not None
+                                  and not (th.is_bg and isinstance(th.exc, EOFError) and (self.chan.eof or self.chan.closed))}
             self.final_registered = sorted(dict.keys(self.conn._request_callbacks))
             self.in_call_status = []
             for tid in range(1, n + 1):
@@ -1049,7 +1051,7 @@ def dfs(case, bound, env, max_runs=None, deadline=None, visit=None, park_all=Fal
 
 class DirectedChooser:
     """script items: ("run", tid, label) run thread tid until it has logged `label` (label may be "a|b");
-    ("block", tid) run tid until it is not enabled; ("peer", seq); ("tick",) advance to the next deadline
+    ("block", tid) run tid until it is not enabled; ("peer", seq); ("eof",) the peer closes the stream; ("tick",) advance to the next deadline
     (needs case["early_tick"]).  After the script: the default policy.  `failed` is set when an item could not
     be followed (the schedule does not exist on this code)."""
     def __init__(self, script):
@@ -1084,6 +1086,13 @@ class DirectedChooser:
                 if "P%d" % item[1] in opts:
                     return "P%d" % item[1]
                 self.failed = "peer cannot answer %d" % item[1]
+                self.k = len(self.script)
+                break
+            if item[0] == "eof":
+                self._next(ev)
+                if "E" in opts:
+                    return "E"
+                self.failed = "the peer cannot close the stream here"
                 self.k = len(self.script)
                 break
             if item[0] == "tick":
@@ -1242,6 +1251,10 @@ def c13_violations(run):
                 if c["d5"] and i_w9 is not None and c["d5"][0][2] < i_w9:
                     out.append(("C13:completed-but-timeout", "thread %d request %d: the result was published before the "
                                 "caller's final readiness test, yet it raised a timeout" % (c["tid"], c["seq"])))
+        elif res == "eof":
+            if not run.chan.eof:
+                out.append(("C13:unexpected-exception", "thread %d request %d raised EOFError although the peer never "
+                            "closed the stream" % (c["tid"], c["seq"])))
         else:
             out.append(("C13:unexpected-exception", "thread %d request %d: %s" % (c["tid"], c["seq"], res)))
     for tid, err in sorted(getattr(run, "thread_errors", {}).items()):
@@ -1250,6 +1263,12 @@ def c13_violations(run):
         pending = [f for (f, _d) in run.chan.frames]
         for c in calls_of(run):
             if c["result"] is not None:
+                continue
+            if run.chan.eof:
+                # end of stream: every thread inside a call must terminate (EOFError); none may stay parked
+                out.append(("C13:parked-after-eof",
+                            "thread %d request %d never returns after the peer closed the stream (%s); threads: %r"
+                            % (c["tid"], c["seq"], run.outcome, run.blocked_at_end)))
                 continue
             cell = run.cells.get(c["seq"])
             ready = bool(cell is not None and cell._is_ready)
